@@ -136,6 +136,9 @@ func (k *Case) connState() string {
 	if k.C.halfClosed {
 		return "rdclosed"
 	}
+	if k.C.wrFailed {
+		return "wrfailed"
+	}
 	return "open"
 }
 
@@ -388,6 +391,18 @@ func (k *Case) Do(step []any) error {
 		// reading: a Write the client is in, or starts, blocks
 		c.nfault++
 		c.halfClosed = true
+	case "PeerWriteFail":
+		// the client's writes fail from now on (a Write it is in fails now); the read side stays silent
+		c.nfault++
+		c.wrFailed = true
+		c.Conn.Gone()
+		c.Wait()
+	case "PeerGivesUp":
+		if !c.wrFailed {
+			return fmt.Errorf("PeerGivesUp: the writes have not failed")
+		}
+		c.peerGone = true
+		c.Wait()
 	case "Unmount":
 		c.nfault++
 		c.Clnt.Unmount()
@@ -525,7 +540,13 @@ func (k *Case) enabledSteps(faults bool) [][]any {
 			if k.Cfg.hasFault("halfclose") {
 				out = append(out, []any{"PeerHalfClose"})
 			}
+			if k.Cfg.hasFault("wfail") {
+				out = append(out, []any{"PeerWriteFail"})
+			}
 		}
+	}
+	if conn == "wrfailed" {
+		out = append(out, []any{"PeerGivesUp"})
 	}
 	if faults && conn != "clntclosed" && c.nfault < k.Cfg.MaxFaults && k.Cfg.hasFault("unmount") {
 		out = append(out, []any{"Unmount"})
@@ -662,13 +683,13 @@ func (k *Case) finish() {
 	c.ReleaseAll()
 	// the peer keeps behaving: it takes what the client still writes (unanswered) and, if its end
 	// is dead, the client sees EOF
-	for i := 0; i < 1000 && c.Conn.Writing() && !c.peerGone && !c.halfClosed; i++ {
+	for i := 0; i < 1000 && c.Conn.Writing() && !c.peerGone && !c.halfClosed && !c.wrFailed; i++ {
 		if b := c.Conn.Take(); b == nil {
 			break
 		}
 		c.Wait()
 	}
-	if c.peerGone || c.halfClosed {
+	if c.peerGone || c.halfClosed || c.wrFailed {
 		c.Conn.EOF()
 		c.Wait()
 	}
@@ -710,7 +731,7 @@ func (k *Case) judge(quiet Event) {
 	c.mu.Lock()
 	defer c.mu.Unlock()
 	consumed := c.Conn.Consumed()
-	failed := c.peerGone || c.halfClosed || c.Conn.IsClosed() || quiet["cerr"] == true
+	failed := c.peerGone || c.halfClosed || c.wrFailed || c.Conn.IsClosed() || quiet["cerr"] == true
 	for _, h := range c.callers {
 		for i := 1; i <= h.started; i++ {
 			call := callID(h.id, i, c.NCalls)
